@@ -10,11 +10,13 @@ from .ir import walk_stmts, walk_expr, all_exprs, show
 from .paths import path_of
 
 META = {
-    'explanation': 'E-GNF: each hand-translated helper pair (compareEraToYearMonth, eraOverlapsInterval, getMostRecentPriorYear, '
-                   'compareTransitionToMatch[Fuzzy], processActiveTransition, expandDateTuple, createMatch) is summarised on both '
-                   'sides into guarded normal forms under a per-pair role map (accessor/field names, suffix constants, sentinels) '
-                   'and compared on every ordering of the compared terms consistent with the declared type facts; look-up loop '
-                   'shapes; date-tuple normal form (C++ by interval analysis under C07-R1, Python through datetime arithmetic); '
+    'explanation': 'E-GNF: six hand-translated helper pairs (compareEraToYearMonth, eraOverlapsInterval, getMostRecentPriorYear, '
+                   'compareTransitionToMatchFuzzy, expandDateTuple, createMatch) are summarised on both sides into guarded normal '
+                   'forms under a per-pair role map (accessor/field names, suffix constants, sentinels) and compared on every '
+                   'ordering of the compared terms consistent with the declared type facts; compareTransitionToMatch (1125 cases: '
+                   'every pair of suffixes x every position of the w/s/u times), processActiveTransition (every status x prior x '
+                   'flag) and the two look-ups (pools of 0..4 transitions, queries around every start) are interpreted on both '
+                   'sides - C++ typed through the real bodies, Python over its ast - and compared; date-tuple normal form (C++ by interval analysis under C07-R1, Python through datetime arithmetic); '
                    'match-window pairing of the two init functions; typestate of the recycled prior slot; E-SEQ (explicit-state abstract '
                    'evaluation of the Python IR, acv/aeval.py): the two active selectors on every sorted abstract candidate list up to six '
                    'entries, and finder + selector pipelines for both candidate finders on a family of small policies and match '
@@ -88,12 +90,24 @@ def summarise_pair(lib, zs, pair, sv):
     sx.cmp_calls = CMP_CALLS
     sx.bool_return = pair.bool_return
     sx.out_params = {p for p, t in cf.params if t and ('&' in t or '*' in t) and not t.strip().startswith('const')}
+    # a private helper extracted on one side only is summarised in place (the abstracted callees of the pair are not)
+    from .gnf import small_helper_inliner
+    base_inl = small_helper_inliner(lib, ['ace_time::ExtendedZoneProcessor::', 'ace_time::extended::'])
+    sx.inliner = lambda name, nargs: None if name in pair.cfn else base_inl(name, nargs)
     sc = sx.run(pair.cname, cf.body, {})
     pf = zs.fn(pair.pname)
     sp_ = SymExec(sym=pair.psym, fn=dict(pair.pfn, DateTuple='DT', ZoneMatch='MATCH'), lang='py')
     sp_.str_map = dict(sv)
     sp_.bool_return = pair.bool_return
     sp_.ctor_roles = {'DateTuple': ['y', 'M', 'd', 'ss', 'f']}
+
+    def py_inl(name, nargs):
+        g_ = zs.funcs.get(name)
+        if g_ is None or name in pair.pfn or name == pair.pname or not name.split('.')[-1].startswith('_'):
+            return None
+        ss = list(walk_stmts(g_.body))
+        return g_ if len(ss) <= 30 and not any(x.k == 'loop' for x in ss) else None
+    sp_.inliner = py_inl
     sp = sp_.run(pair.pname, pf.body, {})
     return cf, sc, pf, sp
 
@@ -131,7 +145,7 @@ def run(cfg):
     R.analysed['translation_units'] = ['tu/lib.cpp']
     R.analysed['python_modules'] = [ZS]
     R.rule('R1', 'hand-translated helper pairs agree on every consistent ordering of their compared terms', floor=8)
-    R.rule('R1-loop', 'look-up loops have the same "last start <= query" shape on both sides', floor=2)
+    R.rule('R1-loop', 'the look-ups of both sides return the last transition whose start <= query on every abstract pool (interpreted)', floor=2)
     R.rule('R2', 'both implementations canonicalise date tuples to 0 <= time of day < 24h', floor=2)
     sv = suffix_values(lib)
     sufset = set(sv.values())
@@ -973,14 +987,6 @@ def _o(o):
 
 
 # -- (h) processActiveTransition / _process_transition ---------------------------------------------------------------
-
-def _interp(lib):
-    """what the bilateral interpretations share: the C++ module, a constructor for abstract DateTuples / Transitions on
-    either side, the Python evaluator"""
-    from .aeval import CxxModule
-    from .pyeval import PyEval
-    return CxxModule(lib, ['ace_time::']), PyEval(lib.cfg)
-
 
 def process_pair(R, lib, zs, sv):
     """processActiveTransition (C++) and ActiveSelectorInPlace._process_transition (Python) are interpreted (E-SEQ) on
